@@ -303,7 +303,7 @@ impl Property for C18 {
         "fault_enumeration"
     }
     fn rule(&self) -> &'static str {
-        "per seeded valid file (0-6 blocks, check None/CRC32/CRC64) every unsupported feature is substituted in turn with all CRCs, check-field sizes and SHA-256 values consistent: the 13 other check IDs, filter IDs 0x00-0x0B/0x20/0x22/0x4000000000000000-range/random alone and in front of LZMA2, LZMA2 with a size-of-properties other than 1 (present, or merely declared beyond what the header has left), each reserved block-flag bit, reserved stream-flag bits in header+footer / header only / footer only, a second stream, stream padding; one evaluation = one such file through xz_decompress, which must return Err; every variant is distinct (scenario hash) and non-trivial by construction; enumeration is complete per file for the listed feature table"
+        "per seeded valid file (0-6 blocks, check None/CRC32/CRC64) every unsupported feature is substituted in turn with all CRCs, check-field sizes and SHA-256 values consistent: the 13 other check IDs, filter IDs 0x00-0x0B/0x20/0x22/0x4000000000000000-range/random alone and in front of LZMA2, LZMA2 with a size-of-properties other than 1 (present, or merely declared beyond what the header has left), each reserved block-flag bit, reserved stream-flag bits in header+footer / header only / footer only, a second stream, stream padding; and per file a doubled block whose second header is replaced by an equally long one using an unsupported filter or reserved flag bit, its free bits solved over GF(2) so that its CRC32 field equals the previous header's (forged twin header; dropped unless the reference decoder refuses it); one evaluation = one such file through xz_decompress, which must return Err; every variant is distinct (scenario hash) and non-trivial by construction; enumeration is complete per file for the listed feature table"
     }
     fn runs(&self, tier: Tier) -> u64 {
         match tier {
